@@ -109,13 +109,14 @@ type Profile struct {
 	KeepFlush          bool // reopen keeps the flush threshold of the case (C05: operations stay split)
 	NormalFormOneIn    int // one case in N draws every version's writes in normal form (ascending keys, one op per key)
 	FixedSkipFast      *bool
+	QuietOneIn         int // one case in N runs the observers only after the last step (drawn "vread" steps are checked)
 }
 
 var allReads = []string{"get", "has", "getwithindex", "getbyindex", "iterate", "iterator", "proof", "membership", "nonmembership",
 	"versionedproof", "hash", "workinghash", "imhash", "getversioned", "getimmutable", "export"}
 
 var baseWeights = map[string]int{"set": 30, "remove": 12, "save": 18, "rollback": 3, "reopen": 7, "prune": 7, "prune_refuse": 1,
-	"lvfo": 3, "dvf": 2, "setnil": 1, "read": 0, "hop": 0, "iter": 0, "pin": 0, "unpin": 0, "lvfo_invalid": 0, "replay": 0, "hold": 0, "reload": 0, "reload_invalid": 0, "setinit": 0}
+	"lvfo": 3, "dvf": 2, "setnil": 1, "read": 0, "hop": 0, "iter": 0, "pin": 0, "unpin": 0, "lvfo_invalid": 0, "replay": 0, "hold": 0, "reload": 0, "reload_invalid": 0, "setinit": 0, "vread": 0}
 
 func weights(over map[string]int) map[string]int {
 	m := map[string]int{}
@@ -199,6 +200,11 @@ func GenOp(t *rapid.T, w *World, p *Profile) Op {
 	add("reload", reloadOK && !w.LiveInitAbove)
 	add("reload_invalid", w.Latest > 0 && !w.LiveInitAbove)
 	add("setinit", !w.Dirty)
+	if w.Quiet && w.Latest > 0 && p.W["vread"] == 0 {
+		cs = append(cs, cand{"vread", 28}) // quiet cases are checked through drawn versioned reads
+	} else {
+		add("vread", w.Latest > 0)
+	}
 	// the importer allocates a nonce table of size version+1: keep imports to realistic version numbers
 	add("hop", w.Latest > 0 && !w.Dirty && w.Latest < 1<<20)
 	total := 0
@@ -289,6 +295,16 @@ func GenOp(t *rapid.T, w *World, p *Profile) Op {
 			return Op{Kind: "pin", N: vs[0]}
 		}
 		return Op{Kind: "pin", N: rapid.SampledFrom(w.Retained()).Draw(t, "pinv")}
+	case "vread":
+		n := w.Latest
+		if rapid.IntRange(0, 2).Draw(t, "vrOlder") == 0 {
+			n = rapid.SampledFrom(w.Retained()).Draw(t, "vrv")
+		}
+		// a client tends to ask for the same version again (also after that number was rolled back and re-committed)
+		if _, ok := w.Vers[w.LastVRead]; ok && rapid.IntRange(0, 2).Draw(t, "vrSame") != 0 {
+			n = w.LastVRead
+		}
+		return Op{Kind: "vread", N: n, K: genKey(t, w.Vers[n].KV), Read: rapid.SampledFrom([]string{"get", "versioned", "proof", "has", "hash", "iterate", "proof", "get"}).Draw(t, "vrk")}
 	case "setinit":
 		if w.Latest > 0 && rapid.Bool().Draw(t, "setinitAbove") {
 			return Op{Kind: "setinit", N: w.Latest + int64(rapid.IntRange(1, 5).Draw(t, "setinitD"))}
